@@ -48,8 +48,11 @@ type Task struct {
 }
 
 var (
-	taskMu     sync.Mutex
-	pending    []Task
+	taskMu  sync.Mutex
+	pending []Task
+	// TaskPolicy decides what happens to a `go` statement of an instrumented
+	// package in Tasks mode; in Scheduled mode Drop is honoured and anything
+	// else becomes a controlled thread.
 	TaskPolicy = func(pos string) Policy { return Queue }
 )
 
@@ -91,6 +94,9 @@ func Go(pos string, fn func()) {
 		case Drop:
 		}
 	case Scheduled:
+		if TaskPolicy(pos) == Drop {
+			return
+		}
 		s := sched
 		if s == nil || s.current == nil {
 			// outside a controlled execution (setup/final phase)
@@ -212,19 +218,27 @@ type scheduler struct {
 }
 
 type shadowVar struct {
-	keep   any
-	wTid   int
-	wClk   uint32
-	wPos   string
-	hasW   bool
-	rClk   VC
-	rPos   [MaxThreads]string
-	hasR   bool
+	keep any
+	wTid int
+	wClk uint32
+	wPos string
+	hasW bool
+	rClk VC
+	rPos [MaxThreads]string
+	hasR bool
 }
 
 var sched *scheduler
 
 type abortSentinel struct{}
+
+// IsAbort reports whether a recovered panic value is the scheduler's abort
+// signal (harness code that recovers panics of the real code must re-panic
+// with it).
+func IsAbort(r any) bool {
+	_, ok := r.(abortSentinel)
+	return ok
+}
 
 // Cur returns the running controlled thread id, or -1.
 func Cur() int {
